@@ -357,6 +357,8 @@ def replay_reused_renderer():
 
 
 def check(rep, tier):
+    from vlib import statecensus
+    statecensus.obligations(rep, 'C07', 'render')
     stateless_obligation(rep, 'C07')
     rep.dropped = 'nested LiteralCompiler.render_literal_value located by name inside render_dml_query / render_ddl_query; str branch extracted by vlib/codec.py'
     rep.assume('SQLAlchemy: literal_binds routes each literal through render_literal_value; named paramstyle does not double %',
